@@ -767,6 +767,14 @@ func c05Child(r *ev.Run, batch int) {
 					break
 				}
 				failed := false
+				cur := st.clone()
+				// a refused call must leave the cache exactly as it was (checked against the
+				// rows applied so far whenever these are free of transient duplicates)
+				refused := func() {
+					if c.legal(cur) {
+						rep(c.check(tc, cur, p), "direct-after-refused-checked-call", fmt.Sprint(pm))
+					}
+				}
 				for _, i := range pm {
 					ch := changes[i]
 					rc := tc.Table("T")
@@ -781,6 +789,7 @@ func c05Child(r *ev.Run, batch int) {
 						err = rc.Create(ch.uuid, c.m.NewModel("T", ch.uuid, ch.new), checked)
 						if err != nil && checked {
 							r.Count("checked_calls_refused", 1)
+							refused()
 							err = rc.Create(ch.uuid, c.m.NewModel("T", ch.uuid, ch.new), false)
 						}
 					case ch.new == nil:
@@ -789,11 +798,19 @@ func c05Child(r *ev.Run, batch int) {
 						_, err = rc.Update(ch.uuid, c.m.NewModel("T", ch.uuid, ch.new), checked)
 						if err != nil && checked {
 							r.Count("checked_calls_refused", 1)
+							refused()
 							_, err = rc.Update(ch.uuid, c.m.NewModel("T", ch.uuid, ch.new), false)
 						}
 					}
 					if checked {
 						r.Count("checked_direct_calls", 1)
+					}
+					if err == nil {
+						if ch.new == nil {
+							delete(cur, ch.uuid)
+						} else {
+							cur[ch.uuid] = ch.new
+						}
 					}
 					if err != nil {
 						rep([]finding{{"C05/direct-call-error/" + errClassOf(err.Error()), err.Error()}}, "direct", fmt.Sprint(pm))
@@ -805,6 +822,25 @@ func c05Child(r *ev.Run, batch int) {
 				r.Distinct(fmt.Sprintf("%s|direct|%s|%v", c.desc(), shape, pm))
 				if !failed {
 					rep(c.check(tc, next, p), "direct", fmt.Sprint(pm))
+				}
+				// a checked Create that is new for the first schema index and a duplicate for the
+				// second one must be refused and leave nothing behind
+				if !failed && pi == 0 && len(c.schemaI) >= 2 && len(next) > 0 {
+					us := sortedKeys(next)
+					x := next[us[p.Intn(len(us))]]
+					row := c.randRow(p)
+					row["name"] = ref.Set(ref.Str("fresh-name"))
+					row["k2"] = ref.Set(ref.Int(424242))
+					for _, cn := range c.schemaI[1] {
+						row[cn] = x[cn]
+					}
+					nu := p.UUID()
+					if err := tc.Table("T").Create(nu, c.m.NewModel("T", nu, row), true); err == nil {
+						rep([]finding{{"C05/checked-create-accepts-duplicate", fmt.Sprintf("a checked Create duplicating index %v of another row is accepted", c.schemaI[1])}}, "direct", fmt.Sprint(pm))
+					} else {
+						r.Count("refused_checked_creates_probed", 1)
+						rep(c.check(tc, next, p), "direct-after-refused-checked-create", fmt.Sprint(pm))
+					}
 				}
 			}
 			// driver 2: ApplyCacheUpdate with a multi-row ModelUpdates (map order inside the library): repeated
